@@ -234,6 +234,10 @@ def c04_families():
     fam.append(("firsthit-vs-reload-to-accepting", {
         "n": 2, "filters": f, "pre": [(0, ("new", 0, 1, "rlayer")), (0, ("setdefault", 0)), (1, ("setdefault", 0))],
         "progs": [[("reload", 0, 0)], [("emit", 3)]], "post": [(1, ("emit", 3)), (0, ("emit", 3))]}))
+    # two threads reloading through the same handle (no-deadlock clause: the cell's lock must never be held across the rebuild)
+    fam.append(("two-reloads-same-handle", {
+        "n": 2, "filters": f, "pre": [(0, ("new", 0, 0, "rlayer")), (0, ("setdefault", 0)), (1, ("setdefault", 0)), (1, ("emit", 3))],
+        "progs": [[("reload", 0, 1)], [("reload", 0, 3)]], "post": [(1, ("emit", 3)), (0, ("emit", 3))]}))
     # the max level: callsite 3 is above the only collector's hint until T0's new collector raises it
     fam.append(("new-raises-max-level", {
         "n": 2, "filters": f, "pre": [(0, ("new", 0, 2, P)), (1, ("setdefault", 0))],
@@ -310,6 +314,25 @@ def c12_families():
     return fam
 
 
+def c12_return_before_rebuild_cases():
+    """Three parties (oracle-only, forced releases): T2's first hit sits inside `register` holding the dispatcher list; T0's reload is
+    released INTO its blocking write-lock acquisition (it sleeps in the OS, having announced whatever it announces before blocking);
+    T1's reload is released into the same acquisition and, if it returns, T1 emits at a callsite cached `always` under the original
+    value that the value T1 installed rejects.  On the unmodified code T1's reload cannot return before a rebuild has run."""
+    f = [ACC, LOW, REJ_A, DYN, ("dyn", 1, 5), ("none",)]
+    out = []
+    for kind in ("rlayer", "rlayer2", "rfilter"):
+        base = {"n": 3, "filters": f,
+                "pre": [(0, ("new", 0, 0, kind)), (0, ("setdefault", 0)), (1, ("setdefault", 0)), (2, ("setdefault", 0)), (1, ("emit", 1))],
+                "progs": [[("reload", 0, 3)], [("reload", 0, 2), ("emit", 1), ("emit", 1)], [("emit", 8)]],
+                "post": [(1, ("emit", 1)), (0, ("emit", 1)), (2, ("emit", 8))], "family": "reload-returns-before-rebuild-" + kind}
+        for k2 in (4, 5, 6, 7, 8):
+            tail_ = [2] * LONG + [0] * LONG + [1] * LONG + [0] * LONG + [2] * 8
+            out.append(dict(base, sched=[2] * k2 + [0] * 3 + [100] + [1] * 3 + [101] + [1] * 8 + tail_))
+            out.append(dict(base, sched=[2] * k2 + [1] * 3 + [0] * 3 + [100, 101] + [1] * 8 + tail_))
+    return out
+
+
 def family_cases(families, rng, thorough, quick_double=40):
     """every single-preemption schedule of every family; double preemptions: all (thorough) or a sample (quick)"""
     cases = []
@@ -380,7 +403,16 @@ def run_impl(ctx, binpath, cases, tag):
         if len(head) >= 8 and hung * 2 > len(head):
             ctx.notes.append("%s: %d of the first %d cases hung; the remaining %d cases were not run" % (tag, hung, len(head), len(cases) - len(head)))
             return head
-        return head + list(ex.map(one, list(enumerate(cases))[16:]))
+        res = head
+        rest = list(enumerate(cases))[16:]
+        for k in range(0, len(rest), 96):
+            res += list(ex.map(one, rest[k:k + 96]))
+            # a real-time hang costs 30 s: a handful is evidence enough (each is reported with its case as the replay)
+            slow = sum(1 for r in res if (r["hang"] is not None and not r["hang"].get("deadlock")) or r["rc"] == 124)
+            if slow >= 6 and k + 96 < len(rest):
+                ctx.notes.append("%s: %d cases hung; the remaining %d cases were not run" % (tag, slow, len(rest) - k - 96))
+                break
+        return res
 
 
 def calibrate_locks(ctx, rep, binpath):
@@ -467,6 +499,8 @@ def worlds_wf(ctx, rep, cases, tag):
 def diff(case, impl, model):
     """first disagreement between implementation and model, or None"""
     has1 = any(case["progs"])
+    if any(e >= 100 for e in case["sched"]):
+        return None     # schedules with forced releases (threads really blocking in the OS) are judged by the oracle only
     for ph in ("pre", "post"):
         a, b = impl[ph], model[ph]
         if len(a) != len(b):
@@ -587,7 +621,11 @@ def oracle_case(case, impl, finding_mid_install="F41"):
     flags = {}
     ct = case_text(case)
     if impl["hang"] is not None:
-        viol.append(("a thread hung (no progress for 30 s): %s" % json.dumps(impl["hang"]), {"case": ct, "hang": impl["hang"]}, None))
+        if impl["hang"].get("deadlock"):
+            viol.append(("deadlock under the forced schedule (after entry %s): %s" % (impl["hang"].get("after_entry"), impl["hang"].get("status")),
+                         {"case": ct, "hang": impl["hang"], "yields": impl["yields"]}, None))
+        else:
+            viol.append(("a thread hung (no progress for 30 s): %s" % json.dumps(impl["hang"]), {"case": ct, "hang": impl["hang"]}, None))
         return viol, flags
     if impl["deadlock"]:
         viol.append(("deadlock: every unfinished thread is blocked on the dispatcher lock", {"case": ct, "yields": impl["yields"]}, None))
@@ -645,9 +683,12 @@ def phase1_oracle(case, impl, S, viol, flags, finding_mid_install):
     done_emits = []
     preempted_inside = False
     last = None
+    assigned_at = {}                 # t -> schedule index of the assignment of t's running reload
     for i, (t, y) in enumerate(zip(sched, ys)):
-        if y == 998 or t >= case["n"] or idx[t] >= len(progs[t]):
-            continue
+        if t >= 100:
+            t -= 100                 # a forced release
+        if y in (998, 996) or t >= case["n"] or idx[t] >= len(progs[t]):
+            continue                 # stutter / the thread went to sleep on a lock
         op = progs[t][idx[t]]
         if last is not None and last != t and any(inop):
             preempted_inside = True
@@ -659,7 +700,7 @@ def phase1_oracle(case, impl, S, viol, flags, finding_mid_install):
                 vals = set()
                 if c0 is not None:
                     vals.add(S.val[c0])
-                    vals.update(old for (c, old) in inflight_old.values() if c == c0)
+                    vals.update(x[1] for x in inflight_old.values() if x[0] == c0)
                 emits[t] = {"t": t, "cs": op[1], "start": i, "cur0": c0, "vals": vals, "glob_at_start": S.glob, "installed": set()}
             if op[0] == "setglobal":
                 # the handle is cloned out of the slot when the operation starts; who wins a race of two set_global_default
@@ -676,6 +717,7 @@ def phase1_oracle(case, impl, S, viol, flags, finding_mid_install):
             _, c, fid = op
             if c in S.created:
                 inflight_old[t] = (c, S.val[c])
+                assigned_at[t] = i
                 for e in emits.values():
                     if e["cur0"] == c:
                         e["vals"].add(fid)
@@ -690,7 +732,13 @@ def phase1_oracle(case, impl, S, viol, flags, finding_mid_install):
             else:
                 before_glob = S.glob
                 if op[0] == "reload":
-                    inflight_old.pop(t, None)      # the value change was applied at the assignment step
+                    # the value change was applied at the assignment step.  The reload has RETURNED: values of this cell replaced
+                    # before its own assignment are dead from now on, whether or not the reloads that replaced them have returned
+                    own = inflight_old.pop(t, None)
+                    a = assigned_at.pop(t, None)
+                    if own is not None and a is not None:
+                        for u in [u for u, x in inflight_old.items() if x[0] == own[0] and assigned_at.get(u, i) < a]:
+                            inflight_old.pop(u, None)
                 elif op[0] == "setglobal":
                     g = sg.pop(t, None)
                     if g is not None and g["has"] and (g["won"] or (not g["parked"] and S.glob is None)):
